@@ -52,10 +52,10 @@ SOFTWARE.
 */
 
 
-static int  the_index = 0;
-static int  the_length = 0;
-static int  the_char = 0;
-static int  the_byte = 0;
+static size_t the_index = 0;
+static size_t the_length = 0;
+static size_t the_char = 0;
+static size_t the_byte = 0;
 static const char* the_input;
 
 
@@ -88,7 +88,7 @@ static int cont() {
 /*
     Initialize the UTF-8 decoder. The decoder is not reentrant,
 */
-void utf8_decode_init(const char p[], int length) {
+void utf8_decode_init(const char p[], size_t length) {
     the_index = 0;
     the_input = p;
     the_length = length;
@@ -100,7 +100,7 @@ void utf8_decode_init(const char p[], int length) {
 /*
     Get the current byte offset. This is generally used in error reporting.
 */
-int utf8_decode_at_byte() {
+size_t utf8_decode_at_byte() {
     return the_byte;
 }
 
@@ -109,7 +109,7 @@ int utf8_decode_at_byte() {
     Get the current character offset. This is generally used in error reporting.
     The character offset matches the byte offset if the text is strictly ASCII.
 */
-int utf8_decode_at_character() {
+size_t utf8_decode_at_character() {
     return (the_char > 0)
         ? the_char - 1
         : 0;
